@@ -178,7 +178,7 @@ def setup(ctx):
     # entries of the function table that the pinned table does not have are called by corpus texts too (several argument shapes, repeated on cached trees)
     from smartquery import functions as _functions
     from lib import gram
-    new = sorted(n for n in _functions.FUNCTIONS if n not in gram.PINNED_TABLE)
+    new = gram.new_table_names()
     for name in new:
         for args in ('1, 2, 3', '[1, 2], 1', '"a", "b", "c", "d"', 'x, "AbC", 1, "dflt"', 'd, "k"', '[3, 1, 2], v => v', 'i0, i0, "same", 0'):
             t = '%s(%s)' % (name, args)
